@@ -1,4 +1,6 @@
+mod check;
 mod corpus;
+mod expander;
 mod gen;
 mod names;
 mod render;
@@ -43,6 +45,53 @@ fn main() {
                 eprintln!("{}", out.raw_tail);
             }
         }
-        _ => eprintln!("usage: svgen <cmd>"),
+        Some("warm") => {
+            match expander::build_expander() {
+                Ok(p) => eprintln!("expander: {}", p.display()),
+                Err(e) => {
+                    eprintln!("{e}");
+                    std::process::exit(2)
+                }
+            }
+            let progs = fam_msg(1, 2, &gen::GenOpts::default());
+            let spec = corpus::CorpusSpec { name: "warm", programs: &progs, alias: None, extra_files: vec![] };
+            let dir = corpus::write_corpus(&spec, 1);
+            let out = corpus::cargo_build(&dir, &[], "corpus");
+            if !out.ok {
+                for e in out.errors.iter().take(5) {
+                    eprintln!("{}", e.rendered);
+                }
+                eprintln!("{}", out.raw_tail);
+                std::process::exit(2);
+            }
+        }
+        Some("check") => {
+            let prop = args.get(2).cloned().unwrap_or_default();
+            let mut tier = std::env::var("VERIF_TIER").unwrap_or_else(|_| "quick".into());
+            let mut replay = None;
+            let mut i = 3;
+            while i < args.len() {
+                match args[i].as_str() {
+                    "--tier" => {
+                        tier = args[i + 1].clone();
+                        i += 1;
+                    }
+                    "--replay" => {
+                        replay = Some(std::path::PathBuf::from(&args[i + 1]));
+                        i += 1;
+                    }
+                    other => {
+                        eprintln!("unknown argument {other}");
+                        std::process::exit(2);
+                    }
+                }
+                i += 1;
+            }
+            let seed: u64 = std::env::var("VERIF_SEED").ok().and_then(|s| s.parse::<i64>().ok()).map(|s| s as u64).unwrap_or(0);
+            let seed = if seed == 0 { 0x5a1b1a } else { seed };
+            let ctx = check::Ctx { prop, tier, seed, replay, known: check::load_known(), t0: std::time::Instant::now() };
+            std::process::exit(check::run(&ctx));
+        }
+        _ => eprintln!("usage: svgen check <Cxx> [--tier quick|thorough] [--replay file]"),
     }
 }
